@@ -116,6 +116,8 @@ func init() {
 				Bounds: "(?i)[a-b]c, buffers up to 4 bytes"},
 			{Pkg: ix, Func: "ZZ_C04_RawSource", Quick: tier(map[string]int{"streams": 2}), Thorough: tier(map[string]int{"streams": 3}),
 				Bounds: "the real SearchStreams over one index file of `streams` streams whose payload per direction has 0..2 symbolic bytes (5 length profiles); filter: one atom in one direction, plain or negated, or client atom THEN server atom: every stream matches by its own payload (raw data source with its reused buffers)"},
+			{Pkg: ix, Func: "ZZ_C04_Captures", Quick: tier(map[string]int{"chunks": 2}), Thorough: tier(map[string]int{"chunks": 3}),
+				Bounds: "five expressions with a named group (mandatory, optional, in an alternative, possibly empty, trailing optional) over `chunks` one-byte chunks with symbolic bytes and directions: the filter does not panic and agrees with a plain scan"},
 			{Pkg: ix, Func: "ZZ_C04_Sequences", Desc: "one condition, THEN chains of up to 3 elements", Quick: tier(map[string]int{"sources": 1, "chunks": 3, "conditions": 1, "elements": 3}), Thorough: tier(map[string]int{"sources": 1, "chunks": 4, "conditions": 1, "elements": 3}),
 				Bounds: "the real dataConditionsContainer.add/finalize/makeDataConditionFilter over one converter output of 3 (4) one-byte chunks (directions enumerated, bytes symbolic); 1 data condition of 1..3 elements over atoms a/b in either direction, plain or inverted; oracle = reference scan in conversation order"},
 			{Pkg: ix, Func: "ZZ_C04_Sequences", Desc: "two conditions sharing expressions", Quick: tier(map[string]int{"sources": 1, "chunks": 2, "conditions": 2, "elements": 1}), Thorough: tier(map[string]int{"sources": 1, "chunks": 2, "conditions": 2, "elements": 2})},
@@ -214,6 +216,8 @@ func init() {
 		Harnesses: []HarnessSpec{
 			{Pkg: mg, Func: "ZZ_C11_TagCalls", Isolate: true, Desc: "every history of 2 calls", Quick: tier(map[string]int{"calls": 2, "names": 3, "defs": 10, "loopbound": 2000}),
 				Bounds: "calls from {AddTag, UpdateTag(query), UpdateTag(colour), UpdateTag(name), DelTag, UpdateTag(query+colour+mark stream)} on names {tag/a, tag/b, mark/m} with 10 definitions (plain, references to existing/missing tags, sub-query reference, id list, unparsable)"},
+			{Pkg: mg, Func: "ZZ_C11_TagCalls", Isolate: true, Desc: "mark and unmark calls", Quick: tier(map[string]int{"calls": 2, "names": 3, "defs": 2, "deffrom": 4, "allcallkinds": 8, "callset": 0, "loopbound": 2000}),
+				Bounds: "every history of 2 calls of the 8 kinds (incl. mark / unmark of one stream id 0..5, four streams known) over tag/a, tag/b, mark/m with the definitions tag:missing and id:1,2: an accepted mark change is applied"},
 			{Pkg: mg, Func: "ZZ_C11_TagCalls", Isolate: true, Desc: "one call from every valid configuration of three tags", Quick: tier(map[string]int{"calls": 1, "prestate": 1, "defs": 11, "loopbound": 2000}),
 				Bounds: "pre-state: tag/a plain, tag/b in {plain, tag:a, @s:tag:a ...}, tag/c in {plain, tag:a, tag:b, tag:a tag:b, @s:tag:b ...}; then one call of any of the 6 kinds on any of the three names with any of the 11 definitions"},
 			{Pkg: mg, Func: "ZZ_C11_TagCalls", Isolate: true, Desc: "every history of 3 calls (add / update query / delete / rename)", Quick: tier(map[string]int{"calls": 3, "names": 2, "defs": 3, "callset": 1, "callkinds": 4, "loopbound": 2000}),
@@ -224,7 +228,7 @@ func init() {
 		Outside: []string{"converter attach/detach (external processes)", "histories longer than 3 (4) calls", "mark removal", "concurrent API callers"},
 	}
 
-	svc := HarnessSpec{Pkg: mg, Func: "ZZ_SVC_Scenarios", Quick: &Tier{Params: map[string]int{"realjobs": 1, "scenarios": 10}, Samples: 12},
+	svc := HarnessSpec{Pkg: mg, Func: "ZZ_SVC_Scenarios", Quick: &Tier{Params: map[string]int{"realjobs": 1, "scenarios": 11}, Samples: 12},
 		Bounds: "ten job-level schedules: sequential imports with merge; queued imports; an import completing while a merge is in flight; an import extending a stream while a tagging job of a data tag is in flight; an import that creates no index followed by a merge; a capture arriving out of chronological order (stream reset); a referenced tag edited (to a definition with other members / with no members) while the job of the tag referencing it is in flight; a view first used before the first import; a tag deleted, re-added and referenced while its job is in flight; a tag deleted while its job is in flight, then a merge. Payload sizes of the first flow and the threshold of the data tag are symbolic"}
 	svcAssume := []string{"Manager constructed in-package as New() does (no watchers, converters, stored state); real service loop, real import/tagging/merge jobs and completion closures; goroutines under the engine's cooperative scheduler", "engine: Builder.FromPcap (cgo libpcap) replaced by a scripted importer that writes the index with the real Writer; natively the real importer reads generated capture files", "interleavings are sequenced by the harness at job granularity (the in-flight job's snapshot is taken by hand exactly as the starter does), so the schedule replays natively"}
 	svcOut := []string{"interleavings below job granularity", "converter jobs", "more than 4 captures", "restarts"}
